@@ -113,6 +113,29 @@ fn mont_input<R: shuttle::rand::Rng>(rng: &mut R) -> BigUint {
     )
 }
 
+/// Field::sqrt together with its in-place twin: both must agree, and a failed in-place root must leave
+/// its operand alone (the provided default writes only when a root exists).
+fn sqrt_both(v: &Fq) -> Option<Fq> {
+    use ark_ff::Field;
+    let r = v.sqrt();
+    let mut w = *v;
+    let had_root = w.sqrt_in_place().is_some();
+    match (&r, had_root) {
+        (Some(y), true) => {
+            if w * w != *v || (w != *y && w != -*y) {
+                panic!("INVARIANT field_sqrt: sqrt_in_place left {} for operand {} whose root is {}", w, v, y);
+            }
+        }
+        (None, false) => {
+            if w != *v {
+                panic!("INVARIANT field_sqrt: sqrt_in_place returned None but changed its operand {} into {}", v, w);
+            }
+        }
+        _ => panic!("INVARIANT field_sqrt: sqrt and sqrt_in_place disagree on whether {} has a root", v),
+    }
+    r
+}
+
 fn draw_op(prev: Option<&Op>) -> Op {
     let mut rng = shuttle::rand::thread_rng();
     let inp = inputs();
@@ -228,7 +251,7 @@ fn exec_op(op: &Op) -> Res {
                 ark_ff::LegendreSymbol::QuadraticResidue => 1,
                 ark_ff::LegendreSymbol::QuadraticNonResidue => -1,
             };
-            Res::FieldSqrt(v.sqrt().map(|y| fq_to_big(&y)), leg)
+            Res::FieldSqrt(sqrt_both(&v).map(|y| fq_to_big(&y)), leg)
         }
         Op::IdentityAlt(k) => {
             let r_minus_k = -Fr::from(*k);
@@ -508,7 +531,7 @@ fn pure_preflight(sdir: Option<String>) -> Result<(), String> {
                             ark_ff::LegendreSymbol::QuadraticResidue => 1,
                             ark_ff::LegendreSymbol::QuadraticNonResidue => -1,
                         };
-                        out.push((leg, v.sqrt().map(|y| fq_to_big(&y))));
+                        out.push((leg, sqrt_both(&v).map(|y| fq_to_big(&y))));
                     }
                     *slot2.lock().unwrap() = out;
                 },
